@@ -112,6 +112,8 @@ fn scenarios() -> Vec<Scenario> {
         mk("static-byref-array-element-and-field", "TYPE T\nV AS INTEGER\nEND TYPE\nDIM R AS T\nDIM A%(3)\nA%(1) = 10\nR.V = 20\nBump A%(1)\nBump R.V\nBump A%(1)\nPRINT A%(1); R.V\nEND\nSUB Bump (X%) STATIC\nX% = X% + 1\nEND SUB\n", &[" 12  21 "]),
         mk("static-function-byref-parameter", "A% = 1\nB% = 5\nP% = Twice%(A%)\nQ% = Twice%(B%)\nPRINT A%; B%; P%; Q%\nEND\nFUNCTION Twice% (X%) STATIC\nX% = X% * 2\nTwice% = X% + 100\nEND FUNCTION\n", &[" 2  10  102  110 "]),
         mk("static-two-parameters-swapped-calls", "A% = 1\nB% = 2\nSw A%, B%\nSw B%, A%\nPRINT A%; B%\nEND\nSUB Sw (X%, Y%) STATIC\nX% = X% + 10\nY% = Y% + 100\nEND SUB\n", &[" 111  112 "]),
+        mk("byval-integer-to-long-parameter", "PRINT Square&(300)\nS% = 300\nPRINT Square&((S%))\nPRINT Square&(S% + 0)\nShow 200\nEND\nFUNCTION Square& (N&)\nSquare& = N& * N&\nEND FUNCTION\nSUB Show (N&)\nPRINT N& * 200\nEND SUB\n", &[" 90000 ", " 90000 ", " 90000 ", " 40000 "]),
+        mk("byval-converted-to-every-parameter-type", "PI 2.6\nPI 70000 / 7\nPS 1 / 3\nPD 1 / 3\nPL 2.4\nPL 3.6\nEND\nSUB PI (N%)\nPRINT N% * 2\nEND SUB\nSUB PS (N!)\nPRINT N! * 3\nEND SUB\nSUB PD (N#)\nPRINT N# * 3 = 1\nEND SUB\nSUB PL (N&)\nPRINT N& * 100000\nEND SUB\n", &[" 6 ", " 20000 ", " 1 ", "-1 ", " 200000 ", " 400000 "]),
         mk("const-visible-everywhere", "CONST K = 7\nP\nEND\nSUB P\nPRINT K\nPRINT F%(1)\nEND SUB\nFUNCTION F% (N%)\nF% = K + N%\nEND FUNCTION\n", &[" 7 ", " 8 "]),
         mk("call-nested-in-arguments", "PRINT F%(F%(1) + F%(2))\nEND\nFUNCTION F% (N%)\nF% = N% + 1\nEND FUNCTION\n", &[" 6 "]),
         mk("byref-through-two-levels", "A% = 1\nP A%\nPRINT A%\nEND\nSUB P (X%)\nQ X%\nEND SUB\nSUB Q (Y%)\nY% = Y% + 41\nEND SUB\n", &[" 42 "]),
